@@ -1,11 +1,20 @@
 package main
 
-import "fmt"
+import (
+	"fmt"
+	"sort"
+)
+
+var dumpers = map[string]func(p *Prog, m *Model){}
 
 func doDump(p *Prog, what string) {
 	m, err := p.model()
 	if err != nil {
 		fmt.Println("error:", err)
+		return
+	}
+	if d := dumpers[what]; d != nil {
+		d(p, m)
 		return
 	}
 	switch what {
@@ -30,6 +39,28 @@ func doDump(p *Prog, what string) {
 		}
 		for _, u := range unk {
 			fmt.Println("UNKNOWN", p.ipos(u.In), shortName(u.Fn), u.calleeName())
+		}
+	}
+}
+
+func init() {
+	dumpers["libcalls"] = func(p *Prog, m *Model) {
+		cnt := map[string][]string{}
+		for _, fn := range allModFuncs(p) {
+			for _, cs := range callsOf(fn) {
+				if cs.Static != nil && !isModFunc(cs.Static) {
+					n := shortName(cs.Static)
+					cnt[n] = append(cnt[n], shortName(fn))
+				}
+			}
+		}
+		var keys []string
+		for k := range cnt {
+			keys = append(keys, k)
+		}
+		sort.Strings(keys)
+		for _, k := range keys {
+			fmt.Println(k, len(cnt[k]), cnt[k][0])
 		}
 	}
 }
